@@ -30,6 +30,7 @@ structure Round where
   prevMode : String
   obs : List (Option Observation)
   oracles : List Nat
+  lens : List Nat := []    -- length in bytes of every attributed observation of the case (0 = not recorded)
 
 def utypeOf (n : Nat) : UpkeepType := if n = 0 then .condition else if n = 1 then .log else .other
 
@@ -56,8 +57,11 @@ def decode (input : Json) : R Round := do
   let mut obs : List (Option Observation) := []
   let mut oracles : List Nat := []
   let mut uidT : List (CheckResult × String) := []
+  let mut lens : List Nat := []
   for oj in obsJ do
     oracles := oracles ++ [← natF oj "oracle"]
+    let len ← asNat (fieldD oj "len" (.num 0))
+    lens := lens ++ [len]
     if ← boolF oj "ok" then
       let o ← observation (← field oj "o")
       let uids ← listOf asStr (fieldD oj "uids" .null)
@@ -83,7 +87,10 @@ def decode (input : Json) : R Round := do
     else if prevJ == .null then { nonNil := false, len := 0, decoded := none }
     else { nonNil := true, len := 1, decoded := some prev }   -- an encoded outcome is never empty; only `len ≠ 0` matters
   pure { ctx := ctx, n := n, seq := ← natF input "seq", prev := prev, hasPrev := prevJ != .null, prevIn := prevIn,
-         prevMode := prevMode, obs := obs, oracles := oracles }
+         prevMode := prevMode,
+         -- libocr's part of the contract (`Outcome.delivered`): a message longer than the advertised
+         -- `MaxObservationLength` (the regenerated constant) is never handed to the plugin; one of exactly that length is
+         obs := delivered Gen.maxObservationLength (lens.zip obs), oracles := oracles, lens := lens }
 
 /-- the model's outcome for the round, with the canonical iteration orders -/
 def modelOutcome (rd : Round) : Outcome :=
@@ -119,6 +126,9 @@ def roundTags (rd : Round) (o : Outcome) : List String :=
   let os := validObs rd.ctx limits rd.obs
   (if os.length < rd.obs.length then ["invalid-observation-skipped"] else []) ++
   (if rd.obs.any (·.isNone) then ["undecodable-observation"] else []) ++
+  (if rd.lens.any (fun l => decide (l = Gen.maxObservationLength)) then ["observation-length=max"] else []) ++
+  (if rd.lens.any (fun l => decide (l + 1 = Gen.maxObservationLength)) then ["observation-length=max-1"] else []) ++
+  (if rd.lens.any (fun l => decide (l > Gen.maxObservationLength)) then ["observation-over-length-not-delivered"] else []) ++
   (if o.agreed.length ≥ limits.agreedLimit then ["agreed-capped"] else []) ++
   (if !o.agreed.isEmpty then ["agreed-nonempty"] else []) ++
   (if rd.hasPrev then ["has-prev"] else []) ++
